@@ -12,7 +12,7 @@ print(f"""You are working on a scratch git worktree of the C library nanomsg/nng
 Build + test suite (takes ~1-2 min; use at most 6 parallel jobs, the machine is shared):
   cmake -G Ninja -S {wt} -B {wt}/_build -DCMAKE_BUILD_TYPE=RelWithDebInfo >/dev/null && cmake --build {wt}/_build -j6
   ctest --test-dir {wt}/_build -j6 --timeout 900
-(On the unmodified tree nng.platform.resolver_test always fails and nng.sp.multistress_test is flaky - ignore those two; all others pass. No network is available.)
+(Tests such as nngcat_* and the stress tests use fixed /tmp paths or ports and can collide with other jobs on this shared machine: re-run such failures individually before concluding. On the unmodified tree nng.platform.resolver_test always fails and nng.sp.multistress_test is flaky - ignore those two; all others pass. No network is available.)
 
 Here is a semantic property of nng that users rely on:
 
